@@ -22,13 +22,13 @@ from transval import hx, unhx
 
 SPEC = {
     "prop": "C03",
-    "lean_targets": ["InfernoVerif.Props.C03", "InfernoVerif.Props.C03GlueF", "InfernoVerif.Model.NeuronF", "InfernoVerif.Gen.Dispatch"],
-    "prop_files": ["InfernoVerif/Props/C03.lean", "InfernoVerif/Props/C03GlueF.lean"],
+    "lean_targets": ["InfernoVerif.Props.C03", "InfernoVerif.Props.C03GlueF", "InfernoVerif.Props.C03GlueProg", "InfernoVerif.Model.NeuronF", "InfernoVerif.Gen.Dispatch"],
+    "prop_files": ["InfernoVerif/Props/C03.lean", "InfernoVerif/Props/C03GlueF.lean", "InfernoVerif/Props/C03GlueProg.lean"],
     "lemma_files": ["InfernoVerif/Lemmas/Neuron.lean"],
     "model_files": ["InfernoVerif/Model/NeuronF.lean", "InfernoVerif/Gen/NeuronDynamicsF.lean",
                     "InfernoVerif/Gen/NeuronAdaptationF.lean", "InfernoVerif/Gen/NeuronDynamicsR.lean",
                     "InfernoVerif/Gen/NeuronAdaptationR.lean"],
-    "translate": ["NeuronDynamics", "NeuronAdaptation", "NeuronSites"],
+    "translate": ["NeuronDynamics", "NeuronAdaptation", "NeuronSites", "NeuronProg"],
     "driver_targets": ["InfernoVerif.Model.NeuronF", "InfernoVerif.Gen.Dispatch"],
     "assumptions": [
         "theorems are over exact reals; float rounding that changes a discrete outcome (e.g. refrac_t/dt not representable) is exercised "
